@@ -115,7 +115,7 @@ def part_aero(s):
     pf_ = _aero_model(fullnamed, [False] * len(fullnamed), s2)
     viol, validated = [], 0
     wh = dict(sset=s["sset"], ground=s["ground"], comp=s["comp"])
-    Fsc = max(max(np.abs(ph["ap.aero_states.%s_sec_forces" % n]).max() for n, _ in named), 1e-300)
+    Fsc = max(max(np.abs(ph["ap.aero_states.%s_sec_forces" % n]).max() for n, _ in named), gen.force_floor(0.5, 200.0, [m for _, m in named]))
     cdw_bad = False
 
     def cmp(name, a, b, scale=None, extra=None):
